@@ -599,9 +599,9 @@ Deferred(p, progs) == IdxOrder(p, progs, 0, {})""", "MC_Checker.tla", "MC_Checke
     ("dangling edges ignored (finding F2)", "Checker.tla",
      "                                   \\/ \\E i \\in 1..Len(NodeEdges(p, n).es) : NodeEdges(p, n).es[i] >= NumNodes(p)}", "}",
      "MC_Checker.tla", "MC_Checker.cfg", "OutcomeIsReference"),
-    ("arithmetic shift made logical", "Words.tla",
-     "ShrIW(a, b) == IF ShiftOk(b) THEN Ok(ShrIIter(a, b)) ELSE Err(\"overflow\")",
-     "ShrIW(a, b) == ShrW(a, b)", "MC_Alu.tla", "MC_Alu.cfg", "AluDoc"),
+    ("arithmetic shift rounds toward zero", "Words.tla",
+     "ShrIIter(a, b) == IF b = 0 \\/ a = 0 \\/ a = -1 THEN a ELSE ShrIIter(a \\div 2, b - 1)",
+     "ShrIIter(a, b) == IF b = 0 \\/ a = 0 THEN a ELSE ShrIIter(-((-a) \\div 2), b - 1)", "MC_Alu.tla", "MC_Alu.cfg", "AluDoc"),
     ("Drop drops one word too few", "VmOps.tla",
      "OpDrop(st) == LET s == SplitLenWords(st) IN IF s.ok THEN Ok(s.rest) ELSE Err(s.c)",
      "OpDrop(st) == LET s == SplitLenWords(st) IN IF s.ok THEN Ok(s.rest \\o (IF s.words = <<>> THEN <<>> ELSE <<s.words[1]>>)) ELSE Err(s.c)",
@@ -634,7 +634,10 @@ def selftest(ctx):
     import subprocess
     ok = True
     # 1. every deviation of the specification must be caught by its model
+    only = os.environ.get("VERIF_SELFTEST_ONLY")
     for name, fname, old, new, tla, cfg, expected in SPEC_MUTATIONS:
+        if only and only not in name and only not in tla:
+            continue
         d = os.path.join(ctx.work, "mut")
         shutil.rmtree(d, ignore_errors=True)
         shutil.copytree(vrun.SPEC, d)
@@ -653,7 +656,11 @@ def selftest(ctx):
         good = caught and (expected is None or r["invariant"] == expected)
         print(f"SELFTEST-{'ok  ' if good else 'FAIL'}  spec deviation '{name}' -> {tla}: "
               f"{r['invariant'] or ('evaluation error' if caught else 'NOT DETECTED')}")
+        if not good:
+            print("    | " + "\n    | ".join(l[:200] for l in out.splitlines() if l.strip() and not l.startswith("Progress"))[-3000:])
         ok &= good
+    if only:
+        return
     # 2. corrupting one recorded field makes the trace specification reject at that line
     binary = vrun.cargo_build("dev")
     cases = [
